@@ -42,10 +42,10 @@ def iter_source(ex, v, st):
     if isinstance(v, VRef):
         h = st.heap[v.ref]
         if isinstance(h, HList):
-            if h.seq is None:
-                return ('concrete', [])
             if h.items is not None:
                 return ('concrete', h.items)
+            if h.seq is None:
+                return ('concrete', [])
             return ('seq', h.seq, h.etype)
         if isinstance(h, HDict):
             if h.ktype is None:
